@@ -9,7 +9,8 @@
     connected, during another cause's close path), under every interleaving.  [code_cfg] is the
     code as it is now (with the C06 fix: re-check after admission + `connected` tested before the
     socket's once); [prefix_cfg] the code before the fix; [recheck_only_cfg] the re-check alone. *)
-From SioV Require Import Base.GoSem Base.Conc Sio.Lifecycle Sio.LifecycleInv Sio.LifecycleProofs.
+From SioV Require Import Base.GoSem Base.Conc Sio.Lifecycle Sio.LifecycleInv Sio.LifecycleProofs
+  Sio.Lifecycle2 Sio.Lifecycle2Inv Sio.Lifecycle2Proofs.
 Local Open Scope N_scope.
 
 Definition run (sched : list act) : st := exec (step code_cfg) sched init.
@@ -68,6 +69,32 @@ Proof. exact reason_names_cause. Qed.
 Theorem C06_forced_server_close_never_reported : forall sched,
   rep_reason (run sched) <> RForcedServerClose /\ rep_reason (run sched) <> RParseError.
 Proof. exact never_forced_server_close. Qed.
+
+(** TWO sockets on one connection (Sio/Lifecycle2.v): each with its own admission goroutine and its
+    own once; the connection's close loop calls socket.onClose for the sockets of its snapshot in any
+    order and WAITS for each (a socket's close lasts as long as the user's disconnecting handlers);
+    either socket may be anywhere in its admission meanwhile.  For every schedule and for either
+    socket [w]: at most once, never without connecting, disconnecting before disconnect; exactly
+    once at quiescence once its end began; nothing left after the connection's or namespace's end. *)
+Theorem C06_two_sockets_exactly_once_no_trace : forall sched (w : bool),
+  let s := run2 sched in let k := gsk w s in
+  (nd k <= 1) /\ (ndg k <= 1)
+  /\ (ever k = false -> nd k = 0 /\ ndg k = 0)
+  /\ (nd k = 1 -> ndg k = 1 /\ o k = Done /\ conn k = false)
+  /\ (quiescent2 true s = true -> ever k = true -> end_begun2 s k = true -> nd k = 1 /\ ndg k = 1)
+  /\ (quiescent2 true s = true -> e_once2 s = Done -> sk_clean k = true /\ store2 s = false)
+  /\ (quiescent2 true s = true -> o k = Done -> sk_clean k = true).
+Proof. exact two_spec. Qed.
+
+(** Why the closed flag must be set BEFORE getAndRemoveAll and the loop: set after the loop, a socket
+    that leaves its middleware while the loop is busy closing the other socket is neither in the
+    snapshot nor sees the flag - it stays connected, listed and in its room for ever. *)
+Theorem C06_closed_flag_after_loop_refuted :
+  exists sched, let s := exec (cstep2 false) sched cinit2 in
+    quiescent2 false s = true /\ e_once2 s = Done /\ store2 s = false
+    /\ nd (skA s) = 1 /\ sk_clean (skA s) = true
+    /\ ever (skB s) = true /\ nd (skB s) = 0 /\ conn (skB s) = true /\ innsp (skB s) = true /\ room (skB s) = true.
+Proof. exists sched_flag_late. exact flag_late_witness. Qed.
 
 (** The admission race, on the code BEFORE the fix: the connection ends while the namespace
     middleware runs; the socket is admitted afterwards and stays for ever (in the namespace list,
